@@ -60,7 +60,48 @@ def acc_rules(facts, rep):
             toks |= tokens(a)
         ok &= rep.check(("." + fld) in toks, rule, "ZipStreamFileMetadata::%s" % nm, where(f, f.span), "%s() returns .%s" % (nm, fld),
                         "%s() returns %s" % (nm, [show(a) for a in ret_alts(f)]))
-    rep.floor(rule, 20)
+    # derived accessors
+    f = facts.one(r"^read::ZipFile::<'a>::version_made_by$")
+    ras = ret_alts(f)
+    good = len(ras) == 1 and ras[0][0] == "agg" and len(ras[0][3]) == 2
+    if good:
+        hi, lo = ras[0][3][0][1], ras[0][3][1][1]
+        good = hi[0] == "bin" and hi[1] == "Div" and lo[0] == "bin" and lo[1] == "Rem" and hi[3] == lo[3] and hi[3][0] == "const" and hi[3][2] == 10 and \
+            ".version_made_by" in tokens(hi[2]) and hi[2] == lo[2]
+    ok &= rep.check(good, rule, "ZipFile::version_made_by", where(f, f.span), "(v / 10, v % 10) of the recorded version byte (APPNOTE 4.4.2: major.minor in decimal)",
+                    "version_made_by() returns %s" % [show(a)[:100] for a in ras])
+    f = facts.one(ZA + "is_empty$")
+    ras = ret_alts(f)
+    good = len(ras) == 1 and ras[0][0] == "bin" and ras[0][1] == "Eq" and ras[0][3][0] == "const" and ras[0][3][2] == 0 and \
+        any(x[0] == "call" and re.search(r"::len$", x[1]) for x in walk(ras[0][2]))
+    ok &= rep.check(good, rule, "ZipArchive::is_empty", where(f, f.span), "is_empty() <=> len() == 0", "is_empty() returns %s" % [show(a)[:80] for a in ras])
+    # the named method constants carry the codes of APPNOTE 4.4.5 (`file.compression() == CompressionMethod::LZMA` asks for method 14)
+    CODES = {"STORE": 0, "SHRINK": 1, "REDUCE_1": 2, "REDUCE_2": 3, "REDUCE_3": 4, "REDUCE_4": 5, "IMPLODE": 6, "DEFLATE": 8, "DEFLATE64": 9, "PKWARE_IMPLODE": 10,
+             "BZIP2": 12, "LZMA": 14, "IBM_ZOS_CMPSC": 16, "IBM_TERSE": 18, "ZSTD_DEPRECATED": 20, "ZSTD": 93, "MP3": 94, "XZ": 95, "JPEG": 96, "WAVPACK": 97, "PPMD": 98, "AES": 99}
+    VAR = {"Stored": 0, "Deflated": 8, "Bzip2": 12, "Zstd": 93, "Aes": 99}
+    consts = getattr(getattr(facts, "orig", facts), "consts", {}) or {}
+    n_c, wrong = 0, []
+    for path_, c_ in consts.items():
+        if not path_.startswith("compression::CompressionMethod::") or "body" not in c_:
+            continue
+        nm_ = path_.split("::")[-1]
+        if nm_ not in CODES:
+            continue
+        code = None
+        for b_ in c_["body"]["blocks"]:
+            for s_ in b_["stmts"]:
+                if s_["k"] == "assign" and s_["place"]["l"] == 0 and s_["rv"]["k"] == "agg":
+                    v_ = s_["rv"].get("variant")
+                    if v_ == "Unsupported" and s_["rv"]["ops"] and s_["rv"]["ops"][0]["k"] == "const":
+                        code = int(s_["rv"]["ops"][0]["v"])
+                    elif v_ in VAR:
+                        code = VAR[v_]
+        n_c += 1
+        if code != CODES[nm_]:
+            wrong.append("%s=%s (APPNOTE: %d)" % (nm_, code, CODES[nm_]))
+    ok &= rep.check(n_c >= 18 and not wrong, rule, "method-constants", where(f, f.span) if False else "", "%d named CompressionMethod constants carry their APPNOTE 4.4.5 codes" % n_c,
+                    "named method constants disagree with APPNOTE 4.4.5: %s (or fewer than 18 were found: %d)" % (wrong[:3], n_c))
+    rep.floor(rule, 23)
     return ok
 
 
@@ -382,6 +423,31 @@ def search_rules(ctx, facts, rep):
     return ok
 
 
+def search_step_rules(facts, rep, rule="C03-SEARCH"):
+    """both record searches look at EVERY position of their window: the loop-carried position moves by exactly one per iteration (a step of
+    two finds only records at even distances -- archives with an odd amount of prepended data lose their ZIP64 record)"""
+    ok = True
+    for pat in (r"^spec::CentralDirectoryEnd::find_and_parse$", r"^spec::Zip64CentralDirectoryEnd::find_and_parse$"):
+        g = facts.one(pat)
+        ex = Ex(g)
+        loops = g.loops()
+        body = set().union(*[b_ for _, b_ in loops]) if loops else set()
+        steps = []
+        for bi, si, s_ in g.stmts():
+            if s_["k"] == "assign" and not s_["place"]["p"] and bi in body and g.locals[s_["place"]["l"]].get("name"):
+                v = norm(ex.rvalue(s_["rv"], (bi, si)))
+                inner = v[1] if v[0] == "ok" else v
+                if inner[0] == "bin" and inner[1] in ("Add", "Sub") and inner[3][0] == "const":
+                    steps.append(inner[3][2])
+                elif inner[0] == "call" and re.search(r"::(checked_sub|checked_add|wrapping_sub|saturating_sub)$", inner[1]) and len(inner[2]) == 2 and inner[2][1][0] == "const":
+                    steps.append(inner[2][1][2])
+        its = [t_ for b_ in body for t_ in [g.term(b_)] if t_ and t_["k"] == "call" and (t_.get("callee") or "").endswith("Iterator::next")]
+        good = (bool(steps) and all(c_ == 1 for c_ in steps)) or (not steps and bool(its) and not calls_matching(g, r"Iterator::step_by$"))
+        ok &= rep.check(good, rule, "step=1@%s" % g.path.split("::")[1], where(g, g.span), "the search position moves by one per iteration",
+                        "the search position moves by %s per iteration: positions in between are never examined" % sorted(set(steps)))
+    return ok
+
+
 def names_rules(facts, rep):
     rule = "C03-NAMES"
     ok = True
@@ -530,6 +596,62 @@ def dosmode_rules(facts, rep, rule="C03-DOSMODE"):
                          {k: ([oct(x) for x in v[0]], oct(v[1])) for k, v in bad.items()}, extra))
 
 
+def any_field_table(g, want, ops):
+    """is the boolean function `g(self)` the disjunction `self.f1 OP c1 || self.f2 OP c2 || ..` over exactly the fields of `want` (field ->
+    constant; OP one of `ops`, with `Ge c+1` read as `Gt c`)?  Decided on the value flow (E9): every return path is a chain of failed tests
+    ending in the first test that holds (-> true) or, after all of them failed, false."""
+    from engine import sym as _sym
+    S = _sym.Sym(g, max_paths=5000)
+    S._returns = []
+    try:
+        S.run(lambda bb, t: False)
+        rets = S._returns
+    except _sym.SymTooComplex:
+        return False
+    finally:
+        S._returns = None
+    if not rets:
+        return False
+    NEG = {"Eq": "Ne", "Ne": "Eq", "Gt": "Le", "Le": "Gt", "Ge": "Lt", "Lt": "Ge"}
+
+    def test_of(d_):
+        """(field, op, const) of a comparison `self.field OP const`, normalised so that OP is in `ops` when possible"""
+        if not (d_[0] == "bin" and d_[2][0] == "field" and d_[3][0] == "const" and isinstance(d_[3][2], int)):
+            return None
+        op, c = d_[1], d_[3][2]
+        if op == "Ge" and "Gt" in ops:
+            op, c = "Gt", c - 1
+        return d_[2][2], op, c
+    good = True
+    for r_ in rets:
+        tests = []
+        for d_, v_ in r_["conds"]:
+            t_ = test_of(d_)
+            if t_ is None:
+                return False
+            truth = (v_ is None) or v_ != 0
+            if t_[1] in ops:
+                tests.append((t_[0], t_[2], truth))
+            elif NEG.get(t_[1]) in ops:
+                tests.append((t_[0], t_[2], not truth))
+            else:
+                return False
+        val = r_["ret"]
+        if val[0] == "const":
+            if val[2]:
+                good = good and bool(tests) and tests[-1][2] is True and all(h_ is False for _, _, h_ in tests[:-1])
+            else:
+                good = good and {t_[0] for t_ in tests} == set(want) and all(h_ is False for _, _, h_ in tests)
+        else:
+            t_ = test_of(val)
+            if t_ is None or t_[1] not in ops:
+                return False
+            tests.append((t_[0], t_[2], None))
+            good = good and all(h_ is False for _, _, h_ in tests[:-1]) and {x_[0] for x_ in tests} == set(want)
+        good = good and all(want.get(fld_) == c_ for fld_, c_, _ in tests)
+    return good
+
+
 def sentinel_rules(facts, rep):
     """a classic end-record field that ZIP64 producers may mask with the all-ones sentinel (APPNOTE 4.4.19-4.4.24: disk numbers
     0xFFFF) is compared with anything only after record_too_small() said that no field is masked -- otherwise a single-disk ZIP64
@@ -585,43 +707,10 @@ def sentinel_rules(facts, rep):
     # record_too_small(): true exactly when one of the six classic fields holds its all-ones sentinel
     rs = facts.find(r"^spec::CentralDirectoryEnd::record_too_small$")
     if rs:
-        from engine import sym as _sym
         g = rs[0]
-        S = _sym.Sym(g, max_paths=5000)
-        S._returns = []
-        try:
-            S.run(lambda bb, t: False)
-            rets = S._returns
-        except _sym.SymTooComplex:
-            rets = []
-        finally:
-            S._returns = None
         WANT = {"disk_number": 0xFFFF, "disk_with_central_directory": 0xFFFF, "number_of_files_on_this_disk": 0xFFFF, "number_of_files": 0xFFFF,
                 "central_directory_size": 0xFFFFFFFF, "central_directory_offset": 0xFFFFFFFF}
-        good = bool(rets)
-        falses = 0
-        for r_ in rets:
-            tests = []
-            for d_, v_ in r_["conds"]:
-                if d_[0] == "bin" and d_[1] in ("Eq", "Ne") and d_[2][0] == "field" and d_[3][0] == "const":
-                    holds = ((v_ is None) or v_ != 0) == (d_[1] == "Eq")
-                    tests.append((d_[2][2], d_[3][2], holds))
-                else:
-                    good = False
-            val = r_["ret"]
-            if val[0] == "bin" and val[1] in ("Eq", "Ne") and val[2][0] == "field" and val[3][0] == "const":
-                # `.. || last == SENTINEL`: the value of the last test is the answer
-                tests.append((val[2][2], val[3][2], None))
-                good = good and val[1] == "Eq" and all(h_ is False for _, _, h_ in tests[:-1]) and {t_[0] for t_ in tests} == set(WANT)
-            elif val[0] == "const":
-                if val[2]:
-                    good = good and bool(tests) and tests[-1][2] is True and all(h_ is False for _, _, h_ in tests[:-1])
-                else:
-                    falses += 1
-                    good = good and {t_[0] for t_ in tests} == set(WANT) and all(h_ is False for _, _, h_ in tests)
-            else:
-                good = False
-            good = good and all(WANT.get(fld_) == c_ for fld_, c_, _ in tests)
+        good = any_field_table(g, WANT, ("Eq",))
         ok &= rep.check(good, rule, "record_too_small=any-field-is-its-sentinel", where(g, g.span),
                         "true iff disk_number / disk_with_central_directory / both counts == 0xFFFF or size / offset == 0xFFFFFFFF",
                         "record_too_small() is not `some classic field holds its all-ones sentinel` -- it decides whether the classic disk numbers are trusted")
@@ -716,6 +805,7 @@ def run(ctx, rep):
     central_rules(ctx, facts, rep)
     offset_rules(facts, rep)
     search_rules(ctx, facts, rep)
+    search_step_rules(facts, rep)
     names_rules(facts, rep)
     perentry_rules(facts, rep)
     sentinel_rules(facts, rep)
